@@ -5,6 +5,7 @@ import TemprenModel.Model.Hash
 import TemprenModel.Model.AdHoc
 import TemprenModel.Model.Registry
 import TemprenModel.Model.Order
+import TemprenModel.Model.Text
 open Tempren Tempren.Proto
 
 def hexNibble (c : Char) : Option Nat :=
@@ -198,6 +199,42 @@ def handle (line : String) : String :=
       let idx := (List.range ds.length).zip (ds.map (fun d => d.toNat?.getD 0))
       encList ((depthSorted (fun (p : Nat × Nat) => p.2) idx).map (fun p => toString p.1))
     | none => "bad-op"
+  | ["text", "trim", w, l, r, ctx] =>
+    match decInt w, decBool l, decBool r, decStr ctx with
+    | some w, some l, some r, some ctx =>
+      match trimConfigure w l r with
+      | none => "CFGERR"
+      | some (w, left) => encStr (trim w left ctx)
+    | _, _, _, _ => "bad-op"
+  | ["text", "pad", w, ch, l, r, ctx] =>
+    match decInt w, decStr ch, decBool l, decBool r, decStr ctx with
+    | some w, some ch, some l, some r, some ctx =>
+      match padConfigure w ch l r with
+      | none => "CFGERR"
+      | some (width, c, left, right) => encStr (pad width c left right ctx)
+    | _, _, _, _, _ => "bad-op"
+  | ["text", "strip", chars, l, r, ctx] =>
+    match decStr chars, decBool l, decBool r, decStr ctx with
+    | some chars, some l, some r, some ctx => encStr (strip chars l r ctx)
+    | _, _, _, _ => "bad-op"
+  | ["text", "collapse", chars, ctx] =>
+    match decStr chars, decStr ctx with
+    | some chars, some ctx =>
+      match collapseConfigure chars with
+      | none => "CFGERR"
+      | some cs => encStr (collapse cs ctx)
+    | _, _ => "bad-op"
+  | ["text", "splitcase", sep, ctx] =>
+    match decStr sep, decStr ctx with
+    | some sep, some ctx =>
+      match splitCaseConfigure sep with
+      | none => "CFGERR"
+      | some sep => encStr (splitCase sep ctx)
+    | _, _ => "bad-op"
+  | ["text", "default", d, ctx] =>
+    match decStr d, decStr ctx with
+    | some d, some ctx => encStr (defaultTag d ctx)
+    | _, _ => "bad-op"
   | _ => "bad-op"
 
 partial def loop (h : IO.FS.Stream) (out : IO.FS.Stream) : IO Unit := do
